@@ -102,8 +102,9 @@ class C19:
         }
         w = pipeline.gen_world_for(rnd, prof)
         w["rows"], w["cols"] = rnd.randint(6, 12), rnd.randint(8, 14)
-        w["georef"] = {"crs": "EPSG:32631", "transform": [0.5, 0.0, 300000.0, 0.0, -0.5, 4800000.0]} \
-            if rnd.random() < 0.5 else None
+        w["georef"] = {"crs": "EPSG:32631", "transform": [0.5, 0.0, 300000.0, 0.0, -0.5, 4800000.0],
+                       # the right image has its own footprint: right products carry the right image's georeferencing
+                       "transform_right": [0.5, 0.0, 300012.5, 0.0, -0.5, 4800000.0]} if rnd.random() < 0.5 else None
         if w["disp"]["kind"] == "grid" and rnd.random() < 0.5:
             w["disp_right"] = None
         prog = pipeline.gen_program(rnd, w, prof)
@@ -243,7 +244,8 @@ class C19:
                         if [x for x in d["descriptions"]] != labels[side]:
                             problems.append(["band_names", k, d["descriptions"], labels[side]])
                     if in_geo:
-                        if d["crs"] != in_geo["crs"] or [round(x, 9) for x in d["transform"]] != [round(x, 9) for x in in_geo["transform"]]:
+                        want_tr = in_geo.get("transform_right", in_geo["transform"]) if k.startswith("right_") else in_geo["transform"]
+                        if d["crs"] != in_geo["crs"] or [round(x, 9) for x in d["transform"]] != [round(x, 9) for x in want_tr]:
                             problems.append(["georeferencing", k, d["crs"], d["transform"]])
                 cfgp = os.path.join("cfg", "config.json")
                 saved = None
